@@ -756,6 +756,24 @@ def observe(pep, ret, held, exact=False, with_native=True, extra_evals=True, use
         except Exception:
             duals.append([])
     out["duals"] = duals
+    # the wrapper's own accessor of the multipliers (same order as its list of sent constraints) against the objects'
+    wd = -1
+    if solved and w is not None:
+        try:
+            vals, _res = w.get_dual_variables()
+            wd = 0
+            sent_ = w._list_of_constraints_sent_to_solver
+            if len(vals) == len(sent_) + 1:          # (the list starts with the multiplier of the Gram matrix itself)
+                vals = vals[1:]
+            for o, v in zip(sent_, vals):
+                a = np.asarray(v, dtype=float).reshape(-1)
+                b_ = np.asarray(o.eval_dual(), dtype=float).reshape(-1)
+                wd = max(wd, CLAMP if a.shape != b_.shape else int(min(CLAMP, round(float(np.abs(a - b_).max()) * 1e6))) if a.size else 0)
+            if len(vals) != len(w._list_of_constraints_sent_to_solver):
+                wd = CLAMP
+        except Exception:
+            wd = -1
+    out["wdual"] = wd                                  # -1: not available; else max |difference| in units of 1e-6
     lmi_mineig = []
     for it, o in items:
         if isinstance(o, PSDMatrix) and o._dual_variable_value is not None:
